@@ -94,4 +94,11 @@ CHECKS["C16"] = {
   "design_ref": "DESIGN.md §5 C16, §2.4",
   "note": "Interleavings are controlled only at the guarded hook points (one per atomic step); preemption between two hooks is not explored. Serials / words logged relative to their start value (bijection) because TLC integers are 32-bit.",
 }
+CHECKS["C17"] = {
+  "level": "model_checking",
+  "technique": "TLA+ spec of callers, outstanding-call table, receiver and peer (Rpc.tla) model-checked by TLC incl. weakened variants; TLC-generated behaviours (exhaustive / simulated) executed step by step on the real Node through guarded async scheduling points against a scripted peer; outcomes compared with the model",
+  "text": "TLC checks OwnReplyOnly, AtMostOnce and NothingLeft over every interleaving of 2-3 callers with own, duplicate, stray and late replies and connection up / absent / broken, and finds the leak counterexamples for LeakOnSendError and for a missing removal on timeout. Behaviours of the model (schedules of alloc / insert / send / timeout / cleanup / reply / route steps) drive the real rpc_call_raw_with_timeout and receiver task; each caller's result must be its own reply or an error, a reply in time must be delivered, and the outstanding-call table must be empty at the end.",
+  "design_ref": "DESIGN.md §5 C17, §2.4",
+  "note": "Hook-point granularity; real-time timers (60 ms / 4 s); one node reused across scenarios; fake EPMD through the guarded port override.",
+}
 NOT_APPLICABLE = {}
